@@ -193,8 +193,12 @@ def report(prop, mod, tier, seed, total, wall, write_evidence=True):
         'pythonhashseed': os.environ.get('PYTHONHASHSEED'),
     }
     if write_evidence:
-        os.makedirs(os.path.join(common.HOME, 'evidence'), exist_ok=True)
-        common.jdump(evidence, os.path.join(common.HOME, 'evidence', '%s.json' % prop))
+        # evidence/ describes runs against the repository itself; runs against a
+        # scratch tree (VERIF_REPO=..., used to try seeded changes) go elsewhere
+        edir = os.path.join(common.HOME, 'evidence') if os.path.realpath(common.REPO) == '/repo' \
+            else os.path.join(common.HOME, '.work', 'alt-evidence')
+        os.makedirs(edir, exist_ok=True)
+        common.jdump(evidence, os.path.join(edir, '%s.json' % prop))
         problem = validate_evidence(evidence)
         if problem:
             total.inconclusive.append('evidence file does not validate: %s' % problem)
